@@ -494,10 +494,24 @@ def rule_everybatch(ctx):
             res.undecided("%s : update-call" % key, "no call of update_params (fail closed)", fn_loc(fn))
             continue
         early = None
-        for y in walk(fn["body"]):
+        from .layout import with_parents as _wp
+        for y, anc in _wp(fn["body"]):
             if y.get("k") == "Ret" and y.get("e") is not None and (y.get("ln") or 0) < (upd.get("ln") or 0):
                 nm, _ = callee(c, peel_refs(y["e"]))
-                if nm not in ("Err", "from_residual"):      # `?` desugars to `return from_residual(..)`
+                if nm in ("Err", "from_residual"):      # `?` desugars to `return from_residual(..)`
+                    continue
+                # an empty batch changes nothing (gradient, sigma and both updates vanish): skipping it is the general path's result
+                guard = next((a for a in reversed(anc) if a.get("k") == "If"), None)
+                cnd = strip(guard["c"]) if guard is not None else None
+                while cnd is not None and cnd.get("k") in ("DropTemps", "Paren"):
+                    cnd = strip(cnd["e"])
+                empty_test = False
+                if cnd is not None:
+                    if cnd.get("k") == "MethodCall" and cnd["name"] == "is_empty":
+                        empty_test = True
+                    if cnd.get("k") == "Binary" and cnd["op"] == "==" and any(z.get("k") == "MethodCall" and z["name"] in ("nsamples", "nrows", "len", "len_of") for z in walk(cnd)) and any(peel_refs(s_).get("k") == "Lit" and str(peel_refs(s_).get("v")).rstrip("usize_") == "0" for s_ in (cnd["l"], cnd["r"])):
+                        empty_test = True
+                if not empty_test:
                     early = y
         if early is not None:
             res.violate("%s : batch-skipped-on-some-path" % key, "`%s` returns the model before update_params: the batch that takes this path leaves z and n untouched, and the replayed history no longer follows the recurrence" % r.e(early)[:50], fn_loc(fn, early.get("ln")))
